@@ -74,9 +74,15 @@ static int run_ops(char *line){
       char lb[4096], ld[4096]; snprintf(lb,sizeof lb,"%s/Test/local_table_b",VERIF_REPO_DIR); snprintf(ld,sizeof ld,"%s/Test/local_table_d",VERIF_REPO_DIR);
       bufr_load_l_tableB(t,lb); bufr_load_l_tableD(t,ld); hv[h]=t; ht[h]=H_TABLES; }
     else if(op[0]=='T'){ int h=atoi(op+1); char *p=strchr(op,'=')+1; int tb=atoi(p); p=strchr(p,',')+1; int ed=atoi(p); int ds[512], n=0;
-      while((p=strchr(p,','))){ p++; ds[n++]=atoi(p); }
-      BufrDescValue *dv=(BufrDescValue*)calloc(n>0?n:1,sizeof *dv); for(int i=0;i<n;i++){ bufr_init_DescValue(&dv[i]); dv[i].descriptor=ds[i]; }
-      BUFR_Template *t=bufr_create_template(dv,n,(BUFR_Tables*)hv[tb],ed); free(dv); if(!t) return -10; hv[h]=t; ht[h]=H_TEMPLATE; }
+      /* a negative number -(v+1) after a descriptor is a default (INT32) value v carried by the template for that descriptor */
+      int dflt[512]; memset(dflt,0xff,sizeof dflt);
+      while((p=strchr(p,','))){ p++; int v=atoi(p); if(v<0 && n>0) dflt[n-1]=-(v+1); else if(n<512) ds[n++]=v; }
+      BufrDescValue *dv=(BufrDescValue*)calloc(n>0?n:1,sizeof *dv);
+      for(int i=0;i<n;i++){ bufr_init_DescValue(&dv[i]); dv[i].descriptor=ds[i];
+        if(dflt[i]>=0){ bufr_valloc_DescValue(&dv[i],1); dv[i].values[0]=bufr_create_value(VALTYPE_INT32); bufr_value_set_int32(dv[i].values[0],dflt[i]); } }
+      BUFR_Template *t=bufr_create_template(dv,n,(BUFR_Tables*)hv[tb],ed);
+      for(int i=0;i<n;i++) bufr_vfree_DescValue(&dv[i]);
+      free(dv); if(!t) return -10; hv[h]=t; ht[h]=H_TEMPLATE; }
     else if(op[0]=='C'){ int h=atoi(op+1); int src=atoi(strchr(op,'=')+1); BUFR_Template *t=bufr_copy_template((BUFR_Template*)hv[src]); if(!t) return -11; hv[h]=t; ht[h]=H_TEMPLATE; }
     else if(op[0]=='D'){ int h=atoi(op+1); int t=atoi(strchr(op,'=')+1); BUFR_Dataset *d=bufr_create_dataset((BUFR_Template*)hv[t]); if(!d) return -12; hv[h]=d; ht[h]=H_DATASET; }
     else if(op[0]=='S'){ int d=atoi(op+1); char *p=strchr(op,':')+1; static char *toks[100000]; int nt=0; char *sv2=NULL;
